@@ -699,8 +699,11 @@ def load_vi_bindings() -> KeyBindingsBase:
         )
         after = "\n".join(lines[buffer.document.cursor_position_row + event.arg :])
 
-        # Set new text.
-        if before and after:
+        # Set new text. (Join with a newline when there are lines left both
+        # above and below; an empty line is a line too.)
+        if lines[: buffer.document.cursor_position_row] and (
+            lines[buffer.document.cursor_position_row + event.arg :]
+        ):
             before = before + "\n"
 
         # Set text and cursor position.
@@ -1155,7 +1158,10 @@ def load_vi_bindings() -> KeyBindingsBase:
                 buff.document = new_document
 
             # Set deleted/changed text to clipboard or named register.
-            if clipboard_data and clipboard_data.text:
+            # (Deleted lines are always remembered, also one empty line.)
+            if clipboard_data and (
+                clipboard_data.text or clipboard_data.type == SelectionType.LINES
+            ):
                 if with_register:
                     reg_name = event.key_sequence[1].data
                     if reg_name in vi_register_names:
@@ -1203,7 +1209,7 @@ def load_vi_bindings() -> KeyBindingsBase:
         Yank operator. (Copy text.)
         """
         _, clipboard_data = text_object.cut(event.current_buffer)
-        if clipboard_data.text:
+        if clipboard_data.text or clipboard_data.type == SelectionType.LINES:
             event.app.clipboard.set_data(clipboard_data)
 
     @operator('"', Keys.Any, "y")
@@ -1214,7 +1220,7 @@ def load_vi_bindings() -> KeyBindingsBase:
         c = event.key_sequence[1].data
         if c in vi_register_names:
             _, clipboard_data = text_object.cut(event.current_buffer)
-            if clipboard_data.text:
+            if clipboard_data.text or clipboard_data.type == SelectionType.LINES:
                 event.app.vi_state.named_registers[c] = clipboard_data
 
     @operator(">")
